@@ -225,19 +225,30 @@ class FST:
         rules = Rules(new_rules, rules.optim)
         return IndexedGrammar(rules).remove_useless_rules()
 
+    @staticmethod
+    def _triple(state_p, symbol, state_q, is_terminal=False):
+        """ Name of the non-terminal (state_p, symbol, state_q); the \
+        names for a terminal, for epsilon and for a non-terminal of the \
+        grammar never coincide, whatever their spelling """
+        if not is_terminal:
+            return str((state_p, symbol, state_q))
+        if symbol == "epsilon":
+            return str((state_p, state_q))
+        return str((state_p, "terminal", symbol, state_q))
+
     def _extract_fst_duplication_rules_intersection(self, new_rules,
                                                     start_variable="S"):
         for state_p in self._final_states:
             for start_state in self._start_states:
                 new_rules.append(DuplicationRule(
                     "S",
-                    str((start_state, start_variable, state_p)),
+                    self._triple(start_state, start_variable, state_p),
                     "T"))
 
     def _extract_fst_epsilon_intersection(self, new_rules):
         for state_p in self._states:
             new_rules.append(EndRule(
-                str((state_p, "epsilon", state_p)),
+                self._triple(state_p, "epsilon", state_p, True),
                 "epsilon"))
 
     def _extract_fst_delta_intersection(self, new_rules):
@@ -247,17 +258,18 @@ class FST:
             for transition in pair:
                 state_q = transition[0]
                 symbol = transition[1]
-                new_rules.append(EndRule(str((state_p, terminal, state_q)),
-                                         symbol))
+                new_rules.append(EndRule(
+                    self._triple(state_p, terminal, state_q, True),
+                    symbol))
 
     def _extract_epsilon_transitions_intersection(self, new_rules):
         for state_p in self._states:
             for state_q in self._states:
                 for state_r in self._states:
                     new_rules.append(DuplicationRule(
-                        str((state_p, "epsilon", state_q)),
-                        str((state_p, "epsilon", state_r)),
-                        str((state_r, "epsilon", state_q))))
+                        self._triple(state_p, "epsilon", state_q, True),
+                        self._triple(state_p, "epsilon", state_r, True),
+                        self._triple(state_r, "epsilon", state_q, True)))
 
     def _extract_indexed_grammar_rules_intersection(self, rules, new_rules):
         for rule in rules.rules:
@@ -266,22 +278,26 @@ class FST:
                     for state_q in self._states:
                         for state_r in self._states:
                             new_rules.append(DuplicationRule(
-                                str((state_p, rule.left_term, state_q)),
-                                str((state_p, rule.right_terms[0], state_r)),
-                                str((state_r, rule.right_terms[1], state_q))))
+                                self._triple(state_p, rule.left_term,
+                                             state_q),
+                                self._triple(state_p, rule.right_terms[0],
+                                             state_r),
+                                self._triple(state_r, rule.right_terms[1],
+                                             state_q)))
             elif rule.is_production():
                 for state_p in self._states:
                     for state_q in self._states:
                         new_rules.append(ProductionRule(
-                            str((state_p, rule.left_term, state_q)),
-                            str((state_p, rule.right_term, state_q)),
-                            str(rule.production)))
+                            self._triple(state_p, rule.left_term, state_q),
+                            self._triple(state_p, rule.right_term, state_q),
+                            rule.production))
             elif rule.is_end_rule():
                 for state_p in self._states:
                     for state_q in self._states:
                         new_rules.append(DuplicationRule(
-                            str((state_p, rule.left_term, state_q)),
-                            str((state_p, rule.right_term, state_q)),
+                            self._triple(state_p, rule.left_term, state_q),
+                            self._triple(state_p, rule.right_term, state_q,
+                                         True),
                             "T"))
 
     def _extract_terminals_intersection(self, rules, new_rules):
@@ -291,13 +307,13 @@ class FST:
                 for state_q in self._states:
                     for state_r in self._states:
                         new_rules.append(DuplicationRule(
-                            str((state_p, terminal, state_q)),
-                            str((state_p, "epsilon", state_r)),
-                            str((state_r, terminal, state_q))))
+                            self._triple(state_p, terminal, state_q, True),
+                            self._triple(state_p, "epsilon", state_r, True),
+                            self._triple(state_r, terminal, state_q, True)))
                         new_rules.append(DuplicationRule(
-                            str((state_p, terminal, state_q)),
-                            str((state_p, terminal, state_r)),
-                            str((state_r, "epsilon", state_q))))
+                            self._triple(state_p, terminal, state_q, True),
+                            self._triple(state_p, terminal, state_r, True),
+                            self._triple(state_r, "epsilon", state_q, True)))
 
     def _extract_consumption_rules_intersection(self, rules, new_rules):
         consumptions = rules.consumption_rules
@@ -307,8 +323,10 @@ class FST:
                     for state_s in self._states:
                         new_rules.append(ConsumptionRule(
                             consumption.f_parameter,
-                            str((state_r, consumption.left_term, state_s)),
-                            str((state_r, consumption.right, state_s))))
+                            self._triple(state_r, consumption.left_term,
+                                         state_s),
+                            self._triple(state_r, consumption.right,
+                                         state_s)))
 
     def __and__(self, other):
         return self.intersection(other)
